@@ -233,6 +233,7 @@ def run(run, tier, replay_path):
         results = pmap(lambda j: (j, replay(j[0], j[2], j[3], j[4], j[5], tmp)), jobs, 4)
         drift = 0
         per = {}
+        bysrc = {}
         steps = 0
         obs = 0
         for (path, kind, leg, src, bl, free), (s, d) in results:
@@ -243,13 +244,13 @@ def run(run, tier, replay_path):
             obs += s.get("observations", 0)
             k = "%s/%s/%s" % ("io_uring+ring" if kind == "ring" else "polling+fallback", leg, "free" if free else "exact")
             per[k] = per.get(k, 0) + s["cases"]
-            per.setdefault("by_source", {})
-            per["by_source"][src] = per["by_source"].get(src, 0) + s["cases"]
+            bysrc[src] = bysrc.get(src, 0) + s["cases"]
             if s.get("aborted"):
                 vlib.log("NOTE: replay run ended early (watchdog or death of the process): %s" % what)
         if obs == 0:
             raise vlib.ToolError("no observation of the real pool state succeeded: binding lost (Debug format of BufferPool changed?)")
         run.note("programs_replayed", per)
+        run.note("programs_replayed_by_source", bysrc)
         run.note("commands_replayed", steps)
         run.note("pool_observations", obs)
         run.note("drift_programs", drift)
@@ -266,6 +267,30 @@ def run(run, tier, replay_path):
         classify(run, s, d, "soak %d recycles" % k, {"leg": "drv", "src": "pipe", "bl": 4, "free": True})
         run.add_traces(s["cases"])
         run.note("soak_recycles_per_pool_kind", k)
+
+        # 4b. schedule-shaped programs (free mode): a completion is in flight when the op is cancelled / the
+        #     stream is dropped / the proactor goes away
+        def st(a, o="", h=0, k=0):
+            return {"a": a, "o": o, "h": h, "k": k, "r": "ok", "b": 0, "x": {}}
+        shaped = os.path.join(tmp, "shaped.jsonl")
+        with open(shaped, "w") as f:
+            for kind in ("ring", "fallback"):
+                for n in (1, 2):
+                    for multi in (1, 2):
+                        for tail_ in (["release"], ["cancel"], ["cancel", "release"], ["next", "release"],
+                                      ["feed", "cancel", "submit", "next"]):
+                            steps = [st("submit", "o1", 0, multi), st("feed", "o1", 0, 2)]
+                            for a in tail_:
+                                steps.append(st(a, "o1" if a != "release" else "", 1 if a == "next" else 0,
+                                                2 if a == "feed" else (multi if a == "submit" else 0)))
+                            f.write(json.dumps({"kind": kind, "n": n, "maxh": n + 1, "files": [],
+                                                "final": {"st": {"o1": "idle"}}, "steps": steps}) + "\n")
+        for leg in ("drv", "rt"):
+            for src in ("pipe", "tcp"):
+                s, d = replay(shaped, leg, src, 4, True, tmp)
+                classify(run, s, d, "in-flight completions %s %s" % (leg, src), {"leg": leg, "src": src, "bl": 4, "free": True})
+                run.add_traces(s["cases"])
+        run.note("shaped_in_flight_programs", 40 * 4)
 
         # 5. negative controls (pointless once violations were found: they would only mask them with a tool error)
         if run.violations:
